@@ -84,7 +84,7 @@ def parse_table(prog, ctx):
         if cname(t["func"]) == "nom::branch::alt":
             seen_alt = bb
     if seen_alt is None:
-        return pb, None
+        return pb, parse_table_match(prog, pb)
     tup = pb.arg_origin(seen_alt, 0)
     if not (tup[0] == "agg" and tup[1] == "tuple"):
         return pb, None
@@ -117,6 +117,58 @@ def parse_table(prog, ctx):
             variant = vs.pop() if len(vs) == 1 else None
         out.append((tagb, variant, inner))
     return pb, out
+
+
+def parse_table_match(prog, pb):
+    """The same table read off a hand-written parser (`match` / `if` on the first byte): per concrete command byte the
+    Command variant that the returning paths build (or the local sub-parser they delegate to), and where the payload starts."""
+    from engines import tables
+
+    def is_cmd_byte(t):
+        rd = cursor.reading(t)
+        return rd is not None and rd["width"] == 1 and rd["off"] == Aff(0) and T.is_param(T.peel(rd["base"]), 1)
+    tab, _open = tables.value_table(pb, is_cmd_byte, universe=None)
+    if not tab:
+        return None
+    out = []
+    for byte in sorted(tab):
+        variants, inners = set(), set()
+        for rv in tab[byte]:
+            agg = T.find(rv, lambda x: isinstance(x, tuple) and x[0] == "agg" and x[1] == "adt" and (x[2] or "").endswith("commands::Command"))
+            if agg is not None and isinstance(rv, tuple) and rv[0] == "agg" and rv[3] == "Ok":
+                variants.add(agg[3])
+                inner = None
+                if agg[4]:
+                    pay = agg[4][0]
+                    rd = cursor.reading(pay)
+                    if rd is not None and rd["kind"] == "le_u32" and rd["off"] == Aff(1) and T.is_param(T.peel(rd["base"]), 1):
+                        inner = ("const", ("fn", "nom::number::complete::le_u32", "nom::number::complete::le_u32"))
+                    else:
+                        b_, off, ln = cursor.locate(pay)
+                        if T.is_param(T.peel(b_), 1) and off == Aff(1) and (ln is None or not ln.is_const()):
+                            inner = ("const", ("fn", "nom::combinator::rest", "nom::combinator::rest"))
+                inners.add(inner)
+                continue
+            if isinstance(rv, tuple) and rv[0] == "agg" and rv[3] == "Err":
+                continue        # a refusal for this byte on some path (short body)
+            # delegation to a local sub-parser applied to the bytes after the command byte
+            c = T.find(rv, lambda x: isinstance(x, tuple) and x[0] == "call" and x[1] in prog.bodies and x[1] != pb.path and
+                       "nom::" in prog.bodies[x[1]].raw.get("sig_out", "") and len(x[2]) == 1)
+            if c is not None:
+                b_, off, ln = cursor.locate(c[2][0])
+                if T.is_param(T.peel(b_), 1) and off == Aff(1):
+                    ib = prog.bodies[c[1]]
+                    vs = {s_["rv"]["vname"] for _, _, s_ in ib.stmts() if s_["k"] == "assign" and s_["rv"]["k"] == "agg" and s_["rv"].get("ak") == "adt" and s_["rv"]["adt"].endswith("commands::Command")}
+                    variants |= vs
+                    inners.add(("const", ("fn", c[1], c[1])))
+                    continue
+            variants.add(None)
+        if not variants:
+            continue        # every path of this byte refuses
+        variant = list(variants)[0] if len(variants) == 1 else None
+        inner = list(inners)[0] if len(inners) == 1 else None
+        out.append((bytes([byte]), variant, inner))
+    return out
 
 
 def run(ctx):
